@@ -169,14 +169,11 @@ def get_id_pack(obj):
             name_pack = '{0}.{1}'.format(obj_cls.__module__, obj_cls.__name__)
             return (name_pack, id(type(obj)), id(obj))
         else:
-            if inspect.ismodule(obj) and obj.__name__ != 'module':
+            if inspect.ismodule(obj):
                 if obj.__name__ in sys.modules:
                     name_pack = obj.__name__
                 else:
                     name_pack = '{0}.{1}'.format(obj.__class__.__module__, obj.__name__)
-            elif inspect.ismodule(obj):
-                name_pack = '{0}.{1}'.format(obj__module__, obj.__name__)
-                print(name_pack)
             elif hasattr(obj, '__module__'):
                 name_pack = '{0}.{1}'.format(obj.__module__, obj.__name__)
             else:
